@@ -156,7 +156,7 @@ def oracle(cases, impl):
     return fails, hist
 
 
-SWEEPS = ["ZV.Place.SweepD2", "ZV.Place.SweepD3r2", "ZV.Place.SweepD3r3", "ZV.Place.SweepD4r2", "ZV.Place.SweepD4r3", "ZV.Place.SweepD4r4"]
+SWEEPS = []     # modules passed to coqchk as -admit (none: the checker re-evaluates the sweeps, ~5 min)
 
 
 def own_coqchk():
@@ -205,9 +205,9 @@ def run(ctx):
         log("BUILD FAILED (harness place):\n" + out[-3000:])
         raise SystemExit(2)
     vlib.regen_consts("Place", "place")
-    # vlib's thorough-tier coqchk would re-evaluate the vm_compute sweeps (Place/Sweep*.v) with the checker's
-    # plain reduction machine (hours) while holding the build lock: C17 runs coqchk itself, outside the
-    # lock, with exactly those six modules -admit'ed (their proofs are checked by coqc's kernel + VM only).
+    # vlib's thorough-tier coqchk holds the build lock; re-evaluating the vm_compute sweeps (Place/Sweep*.v)
+    # with the checker's plain reduction machine takes ~5 min, so C17 runs the same coqchk command itself,
+    # outside the lock (it only reads .vo files). Nothing is admitted.
     old_env = os.environ.get("VERIF_NO_COQCHK")
     os.environ["VERIF_NO_COQCHK"] = "1"
     proofs_ok, info = ctx.check_proofs(make_targets=["Place/Proofs.vo", "Place/ProofsV2.vo", "Place/ProofsV2Fresh.vo", "Place/ProofsOrder.vo", "Properties/C17.vo"],
@@ -219,7 +219,7 @@ def run(ctx):
     if proofs_ok and ctx.tier == "thorough" and old_env is None:
         ck = own_coqchk()
         info["coqchk"] = ck
-        ctx.notes.append("coqchk re-checked ZV.Properties.C17 and its dependencies except the admitted sweep modules: " + ", ".join(SWEEPS))
+        ctx.notes.append("coqchk re-checked ZV.Properties.C17 and all its dependencies, the vm_compute sweeps included (%.0f s)" % ck["wall_s"])
         if not ck["ok"]:
             info["ok"] = False
             info["error"] = "coqchk: " + ck["summary"]
